@@ -147,8 +147,12 @@ def check_compare(case, rec):
     # aggregate() over result objects
     from ioos_qc import qartod
     from ioos_qc.results import CallResult, CollectedResult
-    objs = [CollectedResult(stream_id="s", package="qartod", test=f"t{i}", function=None, results=a)
-            for i, a in enumerate(arrs)]
+    from ioos_qc import argo, axds
+    # the results of real tests, as a run produces them (qartod, argo and axds functions alike)
+    fns = [qartod.gross_range_test, argo.pressure_increasing_test, qartod.spike_test, axds.valid_range_test,
+           argo.speed_test, qartod.flat_line_test]
+    objs = [CollectedResult(stream_id="s", package=fns[i % 6].__module__.split(".")[-1], test=fns[i % 6].__name__ + ("" if i < 6 else str(i)),
+                            function=fns[i % 6], results=a) for i, a in enumerate(arrs)]
     got = flags(rec, "qartod.aggregate", rec.call("qartod.aggregate", qartod.aggregate, objs), n, law="aggregate")
     if got is not SKIP and got != want:
         rec.fail("qartod.aggregate", "aggregate(objects) != worst flag per point", expected=want, got=got, law="aggregate")
@@ -157,7 +161,9 @@ def check_compare(case, rec):
     from ioos_qc.results import ContextResult
     sids = case.get("streams") or ["a", "b", "a", "c", "b", "a"][:len(arrs)]
     zero = np.zeros(n, dtype="float64")
-    ctxs = [ContextResult(stream_id=sid, results=[CallResult(package="qartod", test=f"t{i}", function=None, results=np.ma.array(a))],
+    ctxs = [ContextResult(stream_id=sid, results=[CallResult(package=fns[i % 6].__module__.split(".")[-1],
+                                                             test=fns[i % 6].__name__ + ("" if i < 6 else str(i)),
+                                                             function=fns[i % 6], results=np.ma.array(a))],
                           subset_indexes=np.ones(n, dtype=bool), data=zero, tinp=zero.astype("datetime64[s]"), zinp=zero,
                           lat=zero, lon=zero) for i, (sid, a) in enumerate(zip(sids, arrs))]
 
